@@ -1,6 +1,8 @@
 (* StmtSem.v — the statement fragment over global variables: pure-expression
-   statements, assignments of pure expressions to globals, write(e), blocks,
-   if, if/else and while with pure conditions, nested without bound.  A
+   statements, assignments of pure expressions to globals, calls of the
+   one-argument built-ins write(e), toa(e), aton(e) (and the output node
+   itself), blocks, if, if/else and while with pure conditions, nested
+   without bound.  A
    statement acts on a world: the global bindings, the output written so far
    and the input not yet read.  Its fuelled denotation [ssem] and that
    Sem.eval computes exactly it, with the same fuel. *)
@@ -13,14 +15,15 @@ Open Scope Z_scope.
 Definition assign_ok (g : string) (e : node) : bool := pure e.
 
 (* what a statement can change *)
-Record world := { w_glob : globals; w_out : list string; w_in : list string }.
+(* w_next: the allocation counter (every call takes one fresh number for its activation) *)
+Record world := { w_glob : globals; w_out : list string; w_in : list string; w_next : Z }.
 
-Definition wglob (W : world) (G : globals) : world := {| w_glob := G; w_out := w_out W; w_in := w_in W |}.
-Definition wwrite (W : world) (s : string) : world := {| w_glob := w_glob W; w_out := s :: w_out W; w_in := w_in W |}.
+Definition wglob (W : world) (G : globals) : world := {| w_glob := G; w_out := w_out W; w_in := w_in W; w_next := w_next W |}.
+Definition wwrite (W : world) (s : string) : world := {| w_glob := w_glob W; w_out := s :: w_out W; w_in := w_in W; w_next := w_next W |}.
 
-Definition wof_s (st : sstate) : world := {| w_glob := s_globals st; w_out := s_out st; w_in := s_in st |}.
+Definition wof_s (st : sstate) : world := {| w_glob := s_globals st; w_out := s_out st; w_in := s_in st; w_next := s_next st |}.
 Definition with_world (st : sstate) (W : world) : sstate :=
-  {| s_frames := s_frames st; s_clos := s_clos st; s_globals := w_glob W; s_next := s_next st;
+  {| s_frames := s_frames st; s_clos := s_clos st; s_globals := w_glob W; s_next := w_next W;
      s_out := w_out W; s_in := w_in W |}.
 
 Lemma wglob_same W : wglob W (w_glob W) = W. Proof. destruct W; reflexivity. Qed.
@@ -28,6 +31,51 @@ Lemma with_world_same st : with_world st (wof_s st) = st. Proof. destruct st; re
 Lemma wof_with_world st W : wof_s (with_world st W) = W. Proof. destruct W; reflexivity. Qed.
 Lemma with_world_twice st W1 W2 : with_world (with_world st W1) W2 = with_world st W2. Proof. reflexivity. Qed.
 Lemma with_world_glob st G : with_world st (wglob (wof_s st) G) = with_globals st G. Proof. reflexivity. Qed.
+
+(* ---- the one-argument built-in functions (builtin/builtin.go: name = (v) -> op(v)) ---- *)
+Inductive bop := BWrite | BToa | BAton.
+
+Definition bop_of_name (s : string) : option bop :=
+  if String.eqb s "write" then Some BWrite
+  else if String.eqb s "toa" then Some BToa
+  else if String.eqb s "aton" then Some BAton
+  else None.
+
+Definition bop_node (b : bop) (arg : node) : node :=
+  match b with BWrite => NWrite arg | BToa => NToa arg | BAton => NAton arg end.
+
+Definition aton_res (x : value) : res value :=
+  match x with
+  | VStr s =>
+      match atoi s with
+      | Some i => Ok (VInt i)
+      | None => match parse_float s with PFOk f => Ok (VFloat f) | _ => Fail ErrConversion end
+      end
+  | _ => Fail ErrType
+  end.
+
+Definition bop_sem (b : bop) (W : world) (x : value) : world * res value :=
+  match b with
+  | BWrite => (wwrite W (to_string fmt_float x), Ok VNil)
+  | BToa => (W, Ok (VStr (to_string fmt_float x)))
+  | BAton => (W, aton_res x)
+  end.
+
+(* a call takes a fresh number for its activation *)
+Definition wbump (W : world) : world :=
+  {| w_glob := w_glob W; w_out := w_out W; w_in := w_in W; w_next := w_next W + 1 |}.
+
+Definition fun_eqb (a b : value) : bool :=
+  match a, b with
+  | VFun m1 f1, VFun m2 f2 => (m1 =? m2) && (f1 =? f2)
+  | _, _ => false
+  end.
+
+Lemma fun_eqb_eq a b : fun_eqb a b = true -> a = b /\ exists m f, b = VFun m f.
+Proof.
+  destruct a, b; try discriminate. cbn [fun_eqb]. intros H. apply andb_prop in H. destruct H as [H1 H2].
+  apply Z.eqb_eq in H1, H2. subst. eauto.
+Qed.
 
 Fixpoint wstmt (t : node) : bool :=
   match t with
@@ -38,6 +86,7 @@ Fixpoint wstmt (t : node) : bool :=
   | NIfElse c a b => pure c && wstmt a && wstmt b
   | NWhile c b => pure c && wstmt b
   | NWrite e => pure e
+  | NCall (NName nm) [e] => match bop_of_name nm with Some _ => pure e | None => false end
   | _ => pure t
   end.
 
@@ -49,6 +98,11 @@ Definition cond_res (r : res value) : res bool :=
   | Ok VNil => Fail ErrNil
   | Ok _ => Fail ErrType
   end.
+
+(* Bf: the function values the built-in names were bound to when the session began.  A call nm(e) has
+   the built-in meaning for as long as nm is still bound to Bf nm. *)
+Section WithB.
+Variable Bf : string -> value.
 
 (* the meaning of a statement with fuel n: None = out of fuel; the fuel discipline is Sem.eval's *)
 Fixpoint ssem (n : nat) (W : world) (t : node) {struct n} : option (world * res value) :=
@@ -67,6 +121,17 @@ Fixpoint ssem (n : nat) (W : world) (t : node) {struct n} : option (world * res 
             | Fail err => Some (W, Fail err)
             end
           else None
+      | NCall (NName nm) [e] =>
+          match bop_of_name nm with
+          | Some b =>
+              if Nat.leb (height e) n' && Nat.leb 2 n' && fun_eqb (gval (w_glob W) nm) (Bf nm) then
+                match den (w_glob W) e with
+                | Ok x => Some (wbump (fst (bop_sem b W x)), snd (bop_sem b W x))
+                | Fail err => Some (W, Fail err)
+                end
+              else None
+          | None => None
+          end
       | NBlock l =>
           (fix go (l : list node) (W : world) : option (world * res value) :=
              match l with
@@ -208,17 +273,65 @@ Lemma sblock_cons2 n x y l W :
   end.
 Proof. reflexivity. Qed.
 
-(* Sem.eval computes the fuelled meaning: same fuel, same globals and output, same value or error *)
-Theorem eval_stmt : forall n t, wstmt t = true -> forall env st W' r,
-  ssem n (wof_s st) t = Some (W', r) ->
-  eval n t env st = Done (with_world st W') (ctl_of r).
+(* the closure table of the definitional semantics holds the built-ins where Bf says *)
+Definition sem_bf (st : sstate) : Prop :=
+  forall nm b mo id, bop_of_name nm = Some b -> Bf nm = VFun mo id ->
+    exists lc ln, assoc_get (s_clos st) id =
+      Some {| sc_params := 1; sc_locals := lc; sc_body := bop_node b (NLocal 0 ln); sc_env := None |}.
+
+Lemma eval_local0 n env st fid x rest ln :
+  e_frame env = Some fid -> assoc_get (s_frames st) fid = Some (x :: rest) ->
+  eval (S n) (NLocal 0 ln) env st = Done st (CVal x).
+Proof. intros He Hf. cbn [eval lookup]. unfold read_slot. rewrite He, Hf. reflexivity. Qed.
+
+(* the body of a built-in, run in a fresh frame holding the argument *)
+Lemma eval_bop_body b n env st fid x rest ln :
+  e_frame env = Some fid -> assoc_get (s_frames st) fid = Some (x :: rest) ->
+  exists st', eval (S (S n)) (bop_node b (NLocal 0 ln)) env st = Done st' (ctl_of (snd (bop_sem b (wof_s st) x))) /\
+              wof_s st' = fst (bop_sem b (wof_s st) x) /\ s_clos st' = s_clos st.
 Proof.
-  induction n as [|n IH]; intros t Hw env st W' r Hs; [discriminate Hs|].
+  intros He Hf. destruct b; cbn [bop_node].
+  - change (eval (S (S n)) (NWrite (NLocal 0 ln)) env st)
+      with (bind (eval (S n) (NLocal 0 ln) env st) (fun st1 y => Done (emit_out st1 (to_string fmt_float y)) (CVal VNil))).
+    rewrite (eval_local0 n env st fid x rest ln He Hf). cbn [bind bop_sem fst snd ctl_of].
+    eexists. split; [reflexivity|]. split; reflexivity.
+  - change (eval (S (S n)) (NToa (NLocal 0 ln)) env st)
+      with (bind (eval (S n) (NLocal 0 ln) env st) (fun st1 y => Done st1 (CVal (VStr (to_string fmt_float y))))).
+    rewrite (eval_local0 n env st fid x rest ln He Hf). cbn [bind bop_sem fst snd ctl_of].
+    exists st. split; [reflexivity|]. split; reflexivity.
+  - change (eval (S (S n)) (NAton (NLocal 0 ln)) env st)
+      with (bind (eval (S n) (NLocal 0 ln) env st) (fun st1 y =>
+              match y with
+              | VStr s0 =>
+                  match atoi s0 with
+                  | Some i => Done st1 (CVal (VInt i))
+                  | None => match parse_float s0 with
+                            | PFOk f => Done st1 (CVal (VFloat f))
+                            | _ => Done st1 (CErr ErrConversion)
+                            end
+                  end
+              | _ => Done st1 (CErr ErrType)
+              end)).
+    rewrite (eval_local0 n env st fid x rest ln He Hf). cbn [bind bop_sem fst snd].
+    exists st. split; [|split; reflexivity].
+    unfold aton_res. destruct x; try reflexivity. destruct (atoi s); [reflexivity|]. destruct (parse_float s); reflexivity.
+Qed.
+
+(* Sem.eval computes the fuelled meaning: same fuel, same world, same value or error; the closure
+   table is not touched (the frames of finished calls stay behind in s_frames: no one can reach them) *)
+Theorem eval_stmt : forall n t, wstmt t = true -> forall env st W' r,
+  sem_bf st ->
+  ssem n (wof_s st) t = Some (W', r) ->
+  exists st', eval n t env st = Done st' (ctl_of r) /\ wof_s st' = W' /\ s_clos st' = s_clos st.
+Proof.
+  induction n as [|n IH]; intros t Hw env st W' r Hbf Hs; [discriminate Hs|].
   assert (Pure : pure t = true ->
             (if Nat.leb (height t) (S n) then Some (wof_s st, den (s_globals st) t) else None) = Some (W', r) ->
-            eval (S n) t env st = Done (with_world st W') (ctl_of r)).
+            exists st', eval (S n) t env st = Done st' (ctl_of r) /\ wof_s st' = W' /\ s_clos st' = s_clos st).
   { intros Hp H. destruct (Nat.leb_spec (height t) (S n)) as [Hh|Hh]; [|discriminate H].
-    injection H as <- <-. rewrite with_world_same. apply eval_pure; assumption. }
+    injection H as <- <-. exists st. split; [apply eval_pure; assumption|split; reflexivity]. }
+  assert (Same : forall st1, s_clos st1 = s_clos st -> sem_bf st1).
+  { intros st1 E nm b mo id H1 H2. rewrite E. exact (Hbf nm b mo id H1 H2). }
   destruct t; try (apply Pure; [exact Hw|exact Hs]); try discriminate Hw.
   - (* NIf *)
     cbn [wstmt] in Hw. apply andb_prop in Hw. destruct Hw as [Hc Hb]. cbn [ssem] in Hs. cbn [eval].
@@ -226,8 +339,8 @@ Proof.
     rewrite (eval_pure t1 Hc n env st Hh), as_cond_res. cbn [wof_s w_glob] in Hs.
     destruct (cond_res (den (s_globals st) t1)) as [[|]|e].
     + apply IH; assumption.
-    + injection Hs as <- <-. rewrite with_world_same. reflexivity.
-    + injection Hs as <- <-. rewrite with_world_same. reflexivity.
+    + injection Hs as <- <-. exists st. split; [reflexivity|split; reflexivity].
+    + injection Hs as <- <-. exists st. split; [reflexivity|split; reflexivity].
   - (* NIfElse *)
     cbn [wstmt] in Hw. apply andb_prop in Hw. destruct Hw as [Hw Hb2]. apply andb_prop in Hw. destruct Hw as [Hc Hb1].
     cbn [ssem] in Hs. cbn [eval].
@@ -236,46 +349,94 @@ Proof.
     destruct (cond_res (den (s_globals st) t1)) as [[|]|e].
     + apply IH; assumption.
     + apply IH; assumption.
-    + injection Hs as <- <-. rewrite with_world_same. reflexivity.
+    + injection Hs as <- <-. exists st. split; [reflexivity|split; reflexivity].
   - (* NWhile *)
     cbn [wstmt] in Hw. apply andb_prop in Hw. destruct Hw as [Hc Hb]. rewrite ssem_while in Hs. rewrite eval_while_of.
     destruct (Nat.leb_spec (height t1) n) as [Hh|Hh]; [|discriminate Hs].
-    clear Pure. revert Hs. generalize VNil. generalize n at 2 4. intros k. revert st.
-    induction k as [|k IHk]; intros st last Hs; [discriminate Hs|]. cbn [while_loop_of swhile_of] in *.
+    clear Pure. revert Hs. generalize VNil. generalize n at 2 4. intros k. revert st Hbf Same.
+    induction k as [|k IHk]; intros st Hbf Same last Hs; [discriminate Hs|]. cbn [while_loop_of swhile_of] in *.
     rewrite (eval_pure t1 Hc n env st Hh), as_cond_res. cbn [wof_s w_glob] in Hs.
     destruct (cond_res (den (s_globals st) t1)) as [[|]|e].
-    + change {| w_glob := s_globals st; w_out := s_out st; w_in := s_in st |} with (wof_s st) in Hs.
+    + change {| w_glob := s_globals st; w_out := s_out st; w_in := s_in st; w_next := s_next st |} with (wof_s st) in Hs.
       destruct (ssem n (wof_s st) t2) as [[W1 [v|e]]|] eqn:Eb; try discriminate Hs.
-      * rewrite (IH t2 Hb env st W1 (Ok v) Eb). cbn [ctl_of bind].
-        rewrite <- (wof_with_world st W1) in Hs.
-        rewrite (IHk (with_world st W1) v Hs). reflexivity.
-      * injection Hs as <- <-. rewrite (IH t2 Hb env st W1 (Fail e) Eb). reflexivity.
-    + injection Hs as <- <-. rewrite with_world_same. reflexivity.
-    + injection Hs as <- <-. rewrite with_world_same. reflexivity.
+      * destruct (IH t2 Hb env st W1 (Ok v) Hbf Eb) as (st1 & E1 & HW1 & HC1). rewrite E1. cbn [ctl_of bind].
+        rewrite <- HW1 in Hs.
+        destruct (IHk st1 (Same st1 HC1) ltac:(intros st2 E2; apply Same; congruence) v Hs) as (st2 & E2 & HW2 & HC2).
+        exists st2. split; [exact E2|]. split; [exact HW2|congruence].
+      * injection Hs as <- <-. destruct (IH t2 Hb env st W1 (Fail e) Hbf Eb) as (st1 & E1 & HW1 & HC1).
+        rewrite E1. exists st1. split; [reflexivity|split; assumption].
+    + injection Hs as <- <-. exists st. split; [reflexivity|split; reflexivity].
+    + injection Hs as <- <-. exists st. split; [reflexivity|split; reflexivity].
   - (* NAssign *)
     destruct t1; try discriminate Hw. cbn [wstmt] in Hw. unfold assign_ok in Hw.
     cbn [ssem] in Hs. destruct (Nat.leb_spec (height t2) n) as [Hh|Hh]; [|discriminate Hs].
     rewrite (eval_simple (NAssign (NName n0) t2) Hw (S n) env st ltac:(cbn [theight]; lia)).
-    injection Hs as <- <-. cbn [wof_s w_glob]. rewrite with_world_glob. reflexivity.
+    injection Hs as <- <-. cbn [wof_s w_glob]. eexists. split; [reflexivity|]. split; reflexivity.
   - (* NBlock *)
     cbn [wstmt] in Hw. rewrite eval_block. rewrite ssem_block in Hs.
     assert (Hall : forallb wstmt l = true) by (destruct l; [discriminate Hw|exact Hw]).
-    clear Hw Pure. revert st Hs Hall.
-    induction l as [|x l IHl]; intros st Hs Hall.
-    + cbn [sblock_of] in Hs. injection Hs as <- <-. rewrite with_world_same. reflexivity.
+    clear Hw Pure. revert st Hbf Same Hs Hall.
+    induction l as [|x l IHl]; intros st Hbf Same Hs Hall.
+    + cbn [sblock_of] in Hs. injection Hs as <- <-. exists st. split; [reflexivity|split; reflexivity].
     + cbn [forallb] in Hall. apply andb_prop in Hall. destruct Hall as [Hx Hl].
       destruct l as [|y l'].
       * cbn [sblock_of block_go_of] in *. apply IH; assumption.
       * rewrite sblock_cons2 in Hs. rewrite block_go_cons2.
         destruct (ssem n (wof_s st) x) as [[W1 [v|e]]|] eqn:Ex; try discriminate Hs.
-        -- rewrite (IH x Hx env st W1 (Ok v) Ex). cbn [ctl_of bind].
-           rewrite <- (wof_with_world st W1) in Hs.
-           rewrite (IHl (with_world st W1) Hs Hl). reflexivity.
-        -- injection Hs as <- <-. rewrite (IH x Hx env st W1 (Fail e) Ex). reflexivity.
+        -- destruct (IH x Hx env st W1 (Ok v) Hbf Ex) as (st1 & E1 & HW1 & HC1). rewrite E1. cbn [ctl_of bind].
+           rewrite <- HW1 in Hs.
+           destruct (IHl st1 (Same st1 HC1) ltac:(intros st2 E2; apply Same; congruence) Hs Hl) as (st2 & E2 & HW2 & HC2).
+           exists st2. split; [exact E2|]. split; [exact HW2|congruence].
+        -- injection Hs as <- <-. destruct (IH x Hx env st W1 (Fail e) Hbf Ex) as (st1 & E1 & HW1 & HC1).
+           rewrite E1. exists st1. split; [reflexivity|split; assumption].
+  - (* NCall: a built-in *)
+    destruct t; try discriminate Hw. destruct args as [|a [|a2 l]]; try discriminate Hw.
+    cbn [wstmt] in Hw. cbn [ssem] in Hs.
+    destruct (bop_of_name n0) as [b|] eqn:Eb; [|discriminate Hw].
+    destruct (Nat.leb_spec (height a) n) as [Hh|Hh]; [|discriminate Hs].
+    destruct (Nat.leb_spec 2 n) as [H2|H2]; [|discriminate Hs]. cbn [andb] in Hs.
+    destruct (fun_eqb (gval (w_glob (wof_s st)) n0) (Bf n0)) eqn:Ef; [|discriminate Hs].
+    apply fun_eqb_eq in Ef. destruct Ef as [Eg [mo [id Ebf]]]. cbn [wof_s w_glob] in Eg, Hs.
+    destruct (Hbf n0 b mo id Eb Ebf) as [lc [ln Hcl]].
+    destruct n as [|[|n2]]; try lia.
+    change (eval (S (S (S n2))) (NCall (NName n0) [a]) env st)
+      with (bind (eval (S (S n2)) a env st) (fun st' v =>
+              bind (lookup st' env (NName n0)) (fun st2 f =>
+                match f with
+                | VFun _ id0 =>
+                    match assoc_get (s_clos st2) id0 with
+                    | None => Done st2 (Sem.CAbort "no such function")
+                    | Some c =>
+                        if negb (sc_params c =? zlen (rev [v])) then Done st2 (CErr ErrArity)
+                        else
+                          let locals := repeat VNil (Z.to_nat (sc_locals c - sc_params c)) in
+                          let (st3, fid) := new_frame st2 (rev [v] ++ locals) in
+                          catch_return (eval (S (S n2)) (sc_body c) {| e_frame := Some fid; e_closure := sc_env c |} st3)
+                    end
+                | _ => Done st2 (CErr ErrType)
+                end))).
+    rewrite (eval_pure a Hw (S (S n2)) env st Hh).
+    destruct (den (s_globals st) a) as [x|err]; cbn [ctl_of bind].
+    + cbn [lookup bind]. fold (gval (s_globals st) n0). rewrite Eg, Ebf, Hcl.
+      cbn [sc_params sc_locals sc_body sc_env rev app zlen List.length Z.of_nat Z.eqb negb].
+      replace (negb (1 =? Pos.of_succ_nat 0)%positive) with false by reflexivity.
+      cbn [new_frame].
+      match goal with |- context [eval _ _ _ ?s0] => set (st3 := s0) end.
+      destruct (eval_bop_body b n2 {| e_frame := Some (s_next st); e_closure := None |} st3 (s_next st) x
+                  (repeat VNil (Z.to_nat (lc - 1))) ln eq_refl) as (st4 & E4 & HW4 & HC4).
+      { cbn [st3 s_frames assoc_get]. rewrite Z.eqb_refl. reflexivity. }
+      assert (HB : bop_sem b (wof_s st3) x = (wbump (fst (bop_sem b (wof_s st) x)), snd (bop_sem b (wof_s st) x))).
+      { destruct b; reflexivity. }
+      rewrite HB in E4, HW4. cbn [fst snd] in E4, HW4.
+      rewrite E4. injection Hs as <- <-.
+      exists st4. split; [|split; [exact HW4|exact HC4]].
+      destruct (snd (bop_sem b (wof_s st) x)); reflexivity.
+    + injection Hs as <- <-. exists st. split; [reflexivity|split; reflexivity].
   - (* NWrite *)
     cbn [wstmt] in Hw. cbn [ssem] in Hs. destruct (Nat.leb_spec (height t) n) as [Hh|Hh]; [|discriminate Hs].
     cbn [eval]. rewrite (eval_pure t Hw n env st Hh). cbn [wof_s w_glob] in Hs.
     destruct (den (s_globals st) t) as [x|err]; injection Hs as <- <-; cbn [ctl_of bind].
-    + reflexivity.
-    + rewrite with_world_same. reflexivity.
+    + eexists. split; [reflexivity|split; reflexivity].
+    + exists st. split; [reflexivity|split; reflexivity].
 Qed.
+End WithB.
